@@ -346,7 +346,7 @@ impl Check for C17 {
         "C17"
     }
     fn plan(&self, tier: Tier) -> Plan {
-        let mut p = Plan::new(2 + Self::exhaustive_cases() + tier.pick(3_000, 150_000), tier.pick(40.0, 420.0));
+        let mut p = Plan::new(2 + Self::exhaustive_cases() + tier.pick(30_000, 3_000_000), tier.pick(35.0, 420.0));
         p.mandatory = 2 + Self::exhaustive_cases();
         p.cpu_budget_s = 240.0;
         p
